@@ -29,32 +29,40 @@ def store(name):
 
 
 def run(name, props, tier="quick"):
+    """Apply the change to a scratch worktree of /repo's HEAD (so that /repo itself stays usable;
+    same effect as `git -C /repo apply` + checkout), run the checks with VERIF_REPO pointing at
+    it, remove the worktree."""
     dst = f"{V}/seeded/{name}"
     meta = json.load(open(os.path.join(dst, "meta.json")))
-    assert subprocess.run(["git", "-C", "/repo", "status", "--porcelain"], capture_output=True,
-                          text=True).stdout.strip() == "", "/repo not clean"
     patch = os.path.join(dst, "patch_on_fixed_tree.diff")
     if not os.path.exists(patch):
         patch = os.path.join(dst, "patch.diff")
-    subprocess.run(["git", "-C", "/repo", "apply", patch], check=True)
+    wt = f"/tmp/seed/run-{name}"
+    subprocess.run(["git", "-C", "/repo", "worktree", "remove", "--force", wt], capture_output=True)
+    subprocess.run(["git", "-C", "/repo", "worktree", "add", "-q", "--detach", wt, "HEAD"], check=True)
     try:
+        subprocess.run(["git", "-C", wt, "apply", patch], check=True)
+        env = dict(os.environ, PYTHONPATH=wt, VERIF_REPO=wt,
+                   VERIF_EVIDENCE_DIR=f"{V}/work/seed-evidence")
         d = subprocess.run(["/venv/bin/python", "demo.py"], cwd=dst, capture_output=True, text=True,
-                           env=dict(os.environ, PYTHONPATH="/repo"), timeout=3000)
+                           env=env, timeout=3000)
         meta["demo_on_current_tree_with_patch_exit"] = d.returncode
         meta["patch_used"] = os.path.basename(patch)
         print("demo exit with patch on current tree:", d.returncode)
+        env.pop("PYTHONPATH")
         for p in props:
             t0 = time.time()
-            r = subprocess.run([f"{V}/check", p, "--tier", tier], cwd=V, capture_output=True, text=True)
+            r = subprocess.run([f"{V}/check", p, "--tier", tier], cwd=V, capture_output=True,
+                               text=True, env=env)
             viol = [l for l in r.stdout.splitlines() if l.startswith("VIOLATION")]
-            meta["checks_run"][p] = {"tier": tier, "exit": r.returncode, "violations": len(viol),
-                                     "first": viol[:1], "wall_s": round(time.time() - t0)}
-            print(p, meta["checks_run"][p])
+            meta.setdefault("checks_run", {})[p] = {
+                "tier": tier, "exit": r.returncode, "violations": len(viol), "first": viol[:1],
+                "wall_s": round(time.time() - t0)}
+            print(p, meta["checks_run"][p], flush=True)
     finally:
-        subprocess.run(["git", "-C", "/repo", "checkout", "--", "."], check=True)
+        subprocess.run(["git", "-C", "/repo", "worktree", "remove", "--force", wt])
+        subprocess.run(["git", "-C", "/repo", "worktree", "prune"])
     json.dump(meta, open(os.path.join(dst, "meta.json"), "w"), indent=1)
-    # restore evidence written during the mutant run
-    subprocess.run(["git", "-C", V, "checkout", "--", "evidence"], check=False)
 
 
 if __name__ == "__main__":
